@@ -56,3 +56,5 @@ def run(ctx):
     errdisc.check(ctx, 'C10.RD', 'C10', 22)
     from .. import boundaries as _b
     _b.check_predicates(ctx, 'C10.RP', 'C10')
+    from .. import boundaries as _b
+    _b.check_updates(ctx, 'C10.RU', 'C10')
